@@ -21,6 +21,8 @@ from .. import common as C
 from . import _an
 
 PROP = "C08"
+# obligations of the properties this one is downstream of are obligations of this check too (vk.runner.collect_obligations)
+UPSTREAM = ["C05"]
 GEN_REGIONS = ["CoreKernels", "CudaKernels", "NumpyKernels"]
 THEOREMS = {
     # the NumPy fallbacks (translated each run) are the same reference estimator: every detrending theorem below holds for that backend too
